@@ -31,6 +31,7 @@ struct ThreadCtx {
   int subproc = 0;
   int expect_err_mask = 0;   // errors the current operation may legitimately report (bit per class)
   int got_err_mask = 0; int got_err_count = 0;
+  bool misuse_in_progress = false;   // C17 (debug build): an internal assertion after the error was reported is outside the property
   char note[160];            // context appended to crash/abort reports of the current operation
 };
 enum { EB_ENOMEM = 1, EB_EOVERFLOW = 2, EB_EAGAIN = 4, EB_EFAULT = 8, EB_EINVAL = 16, EB_OTHER = 32 };
@@ -71,3 +72,4 @@ void verify_all_live(const char* when);
 void expect_errors(int mask);
 void run_oracle_op(const Op& op);        // oracles.cc
 void oracle_after_heap_op();             // ownership sample (O7)
+void collect_all_heaps(bool force);      // mi_heap_collect on every live heap of the calling thread, then mi_collect
